@@ -11,6 +11,8 @@ import (
 	"errors"
 	"fmt"
 	"net"
+	"os"
+	"runtime/debug"
 	"sort"
 	"strings"
 
@@ -82,11 +84,49 @@ func isOurSite(site string) bool {
 	return strings.HasPrefix(site, "layers/ethernet.go") || strings.HasPrefix(site, "layers/dot1q.go")
 }
 
+// protect is lib.Protect with a panic-site extraction that also works when the repository under test
+// is a scratch tree (VERIF_REPO): the site is the top-most stack frame inside the repository.
+var lastSite, lastMsg string
+
+func protect(f func() string) (reply string, panicked bool) {
+	defer func() {
+		if v := recover(); v != nil {
+			lastMsg = fmt.Sprint(v)
+			lastSite = siteOf(string(debug.Stack()))
+			reply = "panic " + lib.PanicKind(v)
+			panicked = true
+		}
+	}()
+	return f(), false
+}
+
+func siteOf(stack string) string {
+	root := os.Getenv("VERIF_REPO")
+	if root == "" {
+		root = "/repo"
+	}
+	root = strings.TrimRight(root, "/") + "/"
+	for _, l := range strings.Split(stack, "\n") {
+		l = strings.TrimSpace(l)
+		if !strings.Contains(l, ".go:") {
+			continue
+		}
+		f := strings.Fields(l)[0]
+		if strings.HasPrefix(f, root) {
+			return f[len(root):]
+		}
+		if j := strings.LastIndex(f, "gopacket/"); j >= 0 && !strings.Contains(f, "/verif/") {
+			return f[j+len("gopacket/"):]
+		}
+	}
+	return "?"
+}
+
 // guarded runs f; a panic is reported as a C19 finding with its site and returned as "panic <kind>".
 func guarded(what string, f func() string) string {
-	reply, panicked := lib.Protect(f)
+	reply, panicked := protect(f)
 	if panicked {
-		lib.Finding("C19", "leth:panic:"+lib.LastPanicSite, what+" panicked: "+lib.LastPanicMsg)
+		lib.Finding("C19", "leth:panic:"+lastSite, what+" panicked: "+lastMsg)
 		lib.Stat("panic")
 	}
 	return reply
@@ -312,7 +352,7 @@ func putPayload(b gopacket.SerializeBuffer, p []byte) {
 // serOnce serialises layer l over payload p into buffer b; returns (bytes, error?) and converts a
 // panic into a C07 finding.
 func serOnce(l gopacket.SerializableLayer, b gopacket.SerializeBuffer, p []byte, opts gopacket.SerializeOptions) (out []byte, failed bool, panicked bool) {
-	reply, pk := lib.Protect(func() string {
+	reply, pk := protect(func() string {
 		putPayload(b, p)
 		if err := l.SerializeTo(b, opts); err != nil {
 			return "err"
@@ -320,7 +360,7 @@ func serOnce(l gopacket.SerializableLayer, b gopacket.SerializeBuffer, p []byte,
 		return "ok"
 	})
 	if pk {
-		lib.Finding("C07", "leth:ser-panic:"+lib.LastPanicSite, "SerializeTo panicked: "+lib.LastPanicMsg)
+		lib.Finding("C07", "leth:ser-panic:"+lastSite, "SerializeTo panicked: "+lastMsg)
 		return nil, false, true
 	}
 	if reply == "err" {
@@ -387,7 +427,7 @@ func opSerEth(a []string) string {
 	l := mk().(*layers.Ethernet)
 	out, failed, pk := serOnce(l, b, p, opts)
 	if pk {
-		return "panic " + lib.PanicKind(lib.LastPanicMsg)
+		return "panic " + lib.PanicKind(lastMsg)
 	}
 	serMonitors("Ethernet", mk, p, opts, out, failed)
 	switch {
@@ -434,7 +474,7 @@ func opSerDot1Q(a []string) string {
 	}
 	out, failed, pk := serOnce(mk(), b, p, opts)
 	if pk {
-		return "panic " + lib.PanicKind(lib.LastPanicMsg)
+		return "panic " + lib.PanicKind(lastMsg)
 	}
 	serMonitors("Dot1Q", mk, p, opts, out, failed)
 	if failed {
@@ -712,11 +752,11 @@ func opPkt(kind, mode string, extra int, foreign, data []byte) string {
 	}
 	var p gopacket.Packet
 	var ls []gopacket.Layer
-	_, panicked := lib.Protect(func() string { p, ls = build(true); return "" })
+	_, panicked := protect(func() string { p, ls = build(true); return "" })
 	if panicked {
-		if isOurSite(lib.LastPanicSite) {
-			lib.Finding("C19", "leth:panic:"+lib.LastPanicSite, "NewPacket(SkipDecodeRecovery) panicked in this layer: "+lib.LastPanicMsg)
-			return "panic " + lib.PanicKind(lib.LastPanicMsg)
+		if isOurSite(lastSite) {
+			lib.Finding("C19", "leth:panic:"+lastSite, "NewPacket(SkipDecodeRecovery) panicked in this layer: "+lastMsg)
+			return "panic " + lib.PanicKind(lastMsg)
 		}
 		// a decoder of a LATER layer panicked (other engines' business): observe this layer with recovery on
 		lib.Stat("pkt:later-layer-panic")
@@ -782,7 +822,7 @@ func opDlp(re bool, data []byte) string {
 		// C05 oracle: the run equals the leading run of NewPacket's layers with equal fields
 		if len(data) > 0 {
 			var pl []gopacket.Layer
-			_, pk := lib.Protect(func() string {
+			_, pk := protect(func() string {
 				pl = gopacket.NewPacket(exact(data), layers.LayerTypeEthernet, gopacket.DecodeOptions{}).Layers()
 				return ""
 			})
@@ -890,11 +930,11 @@ func exec(a []string) string {
 			if !(ok1 && ok2 && ok3 && ok4 && ok5) || ty < 0 || ty > 65535 || ln < 0 || ln > 65535 {
 				return "bad-op"
 			}
-			r, pk := lib.Protect(func() string {
+			r, pk := protect(func() string {
 				return rtEth(&layers.Ethernet{DstMAC: dst, SrcMAC: src, EthernetType: layers.EthernetType(ty), Length: uint16(ln)}, p, false)
 			})
 			if pk {
-				lib.Finding("C07", "leth:ser-panic:"+lib.LastPanicSite, "round trip panicked: "+lib.LastPanicMsg)
+				lib.Finding("C07", "leth:ser-panic:"+lastSite, "round trip panicked: "+lastMsg)
 			}
 			return r
 		case "dot1q":
@@ -906,11 +946,11 @@ func exec(a []string) string {
 			if !(ok1 && ok2 && ok3 && ok4 && ok5) || prio < 0 || prio > 255 || vlan < 0 || vlan > 65535 || ty < 0 || ty > 65535 {
 				return "bad-op"
 			}
-			r, pk := lib.Protect(func() string {
+			r, pk := protect(func() string {
 				return rtDot1Q(&layers.Dot1Q{Priority: uint8(prio), DropEligible: dei, VLANIdentifier: uint16(vlan), Type: layers.EthernetType(ty)}, p)
 			})
 			if pk {
-				lib.Finding("C07", "leth:ser-panic:"+lib.LastPanicSite, "round trip panicked: "+lib.LastPanicMsg)
+				lib.Finding("C07", "leth:ser-panic:"+lastSite, "round trip panicked: "+lastMsg)
 			}
 			return r
 		}
